@@ -10,7 +10,7 @@
    (false = the code as it is now).
    No proofs in this file. *)
 From Coq Require Import List Bool NArith.
-From XV Require Import Base.Amap Base.Bytes Repo.Model Glob.Match.
+From XV Require Import Base.Amap Base.Bytes Repo.Model Repo.Fix Glob.Match.
 Import ListNotations.
 Set Implicit Arguments.
 
@@ -20,11 +20,12 @@ Record flags := {
   fixed_mv_absent : bool;   (* move of a copy-method file whose source is absent rechecks the destination *)
   fixed_P45 : bool;         (* move refuses to remove (not rename) a source whose content has no cache object *)
   fixed_P47 : bool;         (* untrack leaves a link whose object is not in the cache as it is instead of panicking *)
-  fixed_P3 : bool           (* copy / move put the content at the cache address of the destination (another extension =
+  fixed_P3 : bool;          (* copy / move put the content at the cache address of the destination (another extension =
                                another address) and stop before any record changes when it is not in the cache *)
+  core : fixes              (* the repairs in track / carry-in (Repo/Fix.v: P44 / P42, P41, P49) *)
 }.
-Definition as_is : flags := {| fixed_P7 := false; fixed_P8 := false; fixed_mv_absent := false; fixed_P45 := false; fixed_P47 := false; fixed_P3 := false |}.
-Definition all_fixed : flags := {| fixed_P7 := true; fixed_P8 := true; fixed_mv_absent := true; fixed_P45 := true; fixed_P47 := true; fixed_P3 := true |}.
+Definition as_is : flags := {| fixed_P7 := false; fixed_P8 := false; fixed_mv_absent := false; fixed_P45 := false; fixed_P47 := false; fixed_P3 := false; core := Fix.as_is |}.
+Definition all_fixed : flags := {| fixed_P7 := true; fixed_P8 := true; fixed_mv_absent := true; fixed_P45 := true; fixed_P47 := true; fixed_P3 := true; core := Fix.all_fixed |}.
 
 Record xrepo := { base : repo; dirs : list path }.
 Definition xinit (a : algo) (m : method) (t : tob) : xrepo := {| base := init_repo a m t; dirs := [] |}.
@@ -478,7 +479,7 @@ Inductive xitem :=
 
 Definition do_xitem (fl : flags) (r : xrepo) (it : xitem) : xrepo * outcome :=
   match it with
-  | XBase i => let '(b, oc) := do_item (base r) i in (set_base r b, oc)
+  | XBase i => let '(b, oc) := do_item_x (core fl) (base r) i in (set_base r b, oc)
   | XCopy o s d => copy_cmd3 fl o s d r
   | XMove o s d => move_cmd45 fl o s d r
   | XRemove o ts => remove_cmd o ts r
